@@ -2,13 +2,14 @@
 pub trait MovingAverage: Method<Input = ValueType, Output = ValueType> {
 	// every shipped moving average accepts every finite input
 	proof fn input_always_ok(&self, x: &ValueType) ensures self.input_ok(x);
-	// kinds whose weights are non-negative (SMA, WMA, SWMA, TRIMA, EMA, DMA, TMA, RMA, WSMA, SMM, Vidya): they cannot overshoot
-	spec fn convex() -> bool;
+	// kinds whose weights are non-negative (SMA, WMA, TRIMA, EMA, DMA, TMA, RMA, WSMA, SMM, Vidya): they cannot overshoot.
+	// A property of the instance (the dispatch enum MAInstance carries its kind at run time); one step never changes it.
+	spec fn convex(&self) -> bool;
 	// abstract: every value the instance currently holds lies in [lo, hi]
 	spec fn within(&self, lo: real, hi: real) -> bool;
 	proof fn lemma_within_step(pre: &Self, x: &ValueType, post: &Self, out: &ValueType, lo: real, hi: real)
-		requires Self::convex(), pre.inv(), pre.within(lo, hi), lo <= x@ <= hi, Self::step(pre, x, post, out)
-		ensures lo <= out@ <= hi, post.within(lo, hi);
+		requires pre.convex(), pre.inv(), pre.within(lo, hi), lo <= x@ <= hi, Self::step(pre, x, post, out)
+		ensures lo <= out@ <= hi, post.within(lo, hi), post.convex();
 	proof fn lemma_within_weaken(&self, lo: real, hi: real, lo2: real, hi2: real)
 		requires self.within(lo, hi), lo2 <= lo, hi <= hi2
 		ensures self.within(lo2, hi2);
@@ -18,8 +19,11 @@ pub trait MovingAverageConstructor: Clone {
 	spec fn period_s(&self) -> PeriodType;
 	// the instance is the average of this kind and period, freshly seeded with the value v
 	spec fn seeded(&self, v: real, inst: &Self::Instance) -> bool;
+	// whether the configured kind is one that cannot overshoot
+	spec fn convex_kind(&self) -> bool;
 //@extract src/core/moving_average.rs trait[MovingAverageConstructor]::init
-	ensures r is Ok ==> r->Ok_0.inv() && self.seeded(initial_value@, &r->Ok_0) && r->Ok_0.within(initial_value@, initial_value@),
+	ensures r is Ok ==> r->Ok_0.inv() && self.seeded(initial_value@, &r->Ok_0) && r->Ok_0.within(initial_value@, initial_value@)
+		&& r->Ok_0.convex() == self.convex_kind(),
 //@end
 //@extract src/core/moving_average.rs trait[MovingAverageConstructor]::ma_period
 	ensures r == self.period_s(),
